@@ -240,6 +240,12 @@ func solveAll(workDir string, frs []*FuncResult, timeoutS int, jobs int) {
 							// One more look at the full query with the other solvers, briefly.
 							gm := runSolver("z3-new", gfile, 5)
 							r3 := runSolver("cvc5", file, 4)
+							if r3.Status != "unsat" {
+								// the old z3 has a different E-matching order and decides some of these at once
+								if r4 := runSolver("z3", file, 8); r4.Status == "unsat" {
+									r3 = r4
+								}
+							}
 							if r3.Status == "unsat" {
 								res = r3
 							} else {
@@ -326,6 +332,9 @@ func (e *Engine) funcsForProp(prop string) []string {
 	for name, fc := range e.cs.Funcs {
 		if fc.Extern {
 			continue
+		}
+		if fc.Flags["inline"] != nil {
+			continue // closure contracts flagged inline are checked inside their parent
 		}
 		if fc.Props[prop] {
 			out = append(out, name)
